@@ -4,7 +4,7 @@
    construct; nothing here is specific to one function of soundevent, except the glue at the end
    (how the opaque objects of the library — a geometry, the result of compute_bounds, a
    constructor call — are represented), which is part of the translator's trusted base. *)
-From SE Require Export Base.Num Base.Res Geom.Geometry Geom.Buffer.
+From SE Require Export Base.Num Base.Res Geom.Geometry Geom.Buffer Geom.Features Eval.Encoding.
 From Coq Require Import Qround.
 Open Scope Q_scope.
 
@@ -91,3 +91,56 @@ Definition mk_BoundingBox (c : list Q) : res geom :=
 Record segclip := { sc_id : ident; sc_start : Q; sc_end : Q }.
 Definition mk_Clip (id : ident) (s e : Q) : res segclip :=
   if qltb e s then Err EValidation else Ok {| sc_id := id; sc_start := s; sc_end := e |}.
+
+(* ================= second batch of units (C19 encoders, C04 validators, C05 features) ================= *)
+
+(* ---- loops that update variables of the enclosing scope and / or return from the function ---- *)
+Inductive lres (S R : Type) := LDone (s : S) | LRet (r : R).
+Arguments LDone {S R} s.
+Arguments LRet {S R} r.
+
+Fixpoint fold_loop {A S R} (l : list A) (s : S) (body : S -> A -> res (lres S R)) : res (lres S R) :=
+  match l with
+  | [] => Ok (LDone s)
+  | x :: r =>
+      bind (body s x) (fun o => match o with LDone s' => fold_loop r s' body | LRet v => Ok (LRet v) end)
+  end.
+
+(* x[i] = v on a list (IndexError = EOther); np.zeros *)
+Fixpoint py_set_nth {A} (l : list A) (i : nat) (v : A) : res (list A) :=
+  match l, i with
+  | [], _ => Err EOther
+  | _ :: r, O => Ok (v :: r)
+  | y :: r, S j => bind (py_set_nth r j v) (fun r' => Ok (y :: r'))
+  end.
+Definition py_set_nth_z {A} (l : list A) (i : Z) (v : A) : res (list A) :=
+  let n := Z.of_nat (length l) in
+  let j := if (i <? 0)%Z then (n + i)%Z else i in
+  if (j <? 0)%Z then Err EOther else py_set_nth l (Z.to_nat j) v.
+Definition zeros_z (n : nat) : list Z := repeat 0%Z n.
+Definition zeros_q (n : nat) : list Q := repeat 0 n.
+
+(* ---- sets of identifiers: a set is a duplicate-free list (first occurrences, in order) ---- *)
+Definition memz (x : Z) (l : list Z) : bool := existsb (Z.eqb x) l.
+Fixpoint py_set (l : list Z) : list Z :=
+  match l with
+  | [] => []
+  | x :: r => let s := py_set r in if memz x s then s else x :: s
+  end.
+Definition subsetz (a b : list Z) : bool := forallb (fun x => memz x b) a.
+Definition set_eqz (a b : list Z) : bool := subsetz a b && subsetz b a.
+
+(* ---- shapely objects: bounds (an empty shape has none), parts of a multi-geometry; Feature(term, value) ---- *)
+Definition py_shp_bounds (s : shp) : res (Q * Q * Q * Q) :=
+  match shp_bounds s with
+  | Some b => Ok (b_start b, b_low b, b_end b, b_high b)
+  | None => Err EOther
+  end.
+Definition shp_geoms (s : shp) : list unit :=
+  match s with
+  | SMultiPoint l => map (fun _ => tt) l
+  | SMultiLine l => map (fun _ => tt) l
+  | SMultiPoly l => map (fun _ => tt) l
+  | _ => []
+  end.
+Definition mk_feature (n : fname) (v : Q) : fname * Q := (n, v).
